@@ -1686,3 +1686,81 @@ def free_consts(term, acc=None, seen=None):
         else:
             stack.extend(e.children())
     return acc
+
+
+def eval_float(term, assignment):
+    """numeric evaluation of a term (exp/log interpreted by libm) under {name: value}"""
+    term = force(term)
+    if isinstance(term, XR):
+        if eval_float(term.ninf, assignment):
+            return NINF
+        return eval_float(term.val, assignment)
+    if not is_sym(term):
+        return float(term) if not isinstance(term, bool) else term
+    memo = {}
+
+    def ev(e):
+        i = e.get_id()
+        if i in memo:
+            return memo[i]
+        k = e.decl().kind() if z3.is_app(e) else None
+        if z3.is_true(e):
+            r = True
+        elif z3.is_false(e):
+            r = False
+        elif z3.is_int_value(e):
+            r = e.as_long()
+        elif z3.is_rational_value(e):
+            r = float(e.as_fraction())
+        elif z3.is_const(e) and k == z3.Z3_OP_UNINTERPRETED:
+            v = assignment[str(e)]
+            r = v if isinstance(v, (bool, int)) else float(v)
+        else:
+            ch = [ev(c) for c in e.children()]
+            nm = e.decl().name()
+            if k == z3.Z3_OP_ADD:
+                r = sum(ch)
+            elif k == z3.Z3_OP_SUB:
+                r = ch[0] - sum(ch[1:])
+            elif k == z3.Z3_OP_MUL:
+                r = 1
+                for c in ch:
+                    r = r * c
+            elif k in (z3.Z3_OP_DIV,):
+                r = ch[0] / ch[1]
+            elif k == z3.Z3_OP_UMINUS:
+                r = -ch[0]
+            elif k == z3.Z3_OP_ITE:
+                r = ch[1] if ch[0] else ch[2]
+            elif k == z3.Z3_OP_LE:
+                r = ch[0] <= ch[1]
+            elif k == z3.Z3_OP_LT:
+                r = ch[0] < ch[1]
+            elif k == z3.Z3_OP_GE:
+                r = ch[0] >= ch[1]
+            elif k == z3.Z3_OP_GT:
+                r = ch[0] > ch[1]
+            elif k == z3.Z3_OP_EQ:
+                r = ch[0] == ch[1]
+            elif k == z3.Z3_OP_DISTINCT:
+                r = ch[0] != ch[1]
+            elif k == z3.Z3_OP_AND:
+                r = all(ch)
+            elif k == z3.Z3_OP_OR:
+                r = any(ch)
+            elif k == z3.Z3_OP_NOT:
+                r = not ch[0]
+            elif k == z3.Z3_OP_TO_REAL:
+                r = float(ch[0])
+            elif k == z3.Z3_OP_TO_INT:
+                r = math.floor(ch[0])
+            elif k == z3.Z3_OP_UNINTERPRETED and nm == "exp":
+                r = math.exp(ch[0])
+            elif k == z3.Z3_OP_UNINTERPRETED and nm == "log":
+                r = math.log(ch[0])
+            else:
+                raise ValueError(f"eval_float: unsupported {e.decl()}")
+        memo[i] = r
+        return r
+
+    return ev(z(term))
